@@ -97,6 +97,17 @@ let gen_history (seed : int) (nops : int) (ndocs : int) (profile : int) : string
           (Printf.sprintf "chainset %d %s %s" h (path_string path) (dump_scalar x), OSet (r, x), None)
         end
       end else
+      if rand 14 = 0 then begin
+        (* add<JsonArray>() / add<JsonObject>() / r[k].to<JsonArray>() / createNested...: two model steps in one call (Model/Chain.v) *)
+        let arr = rand 2 = 0 in
+        if rand 2 = 0 then begin
+          custom := Some (fun w -> add_typed w r arr);
+          (Printf.sprintf "%s %d %d" (if arr then "addarr" else "addobj") h nhd, OAddNew r, Some nhd)
+        end else begin
+          custom := Some (fun w -> nest_typed w r k arr);
+          (Printf.sprintf "%s %d %s %d" (if arr then "nestarr" else "nestobj") h (hex_of_bytes k) nhd, OMakeMember (r, k), Some nhd)
+        end
+      end else
       if choice < 12 then (Printf.sprintf "set %d %s" h (dump_scalar x), OSet (r, x), None)
       else if choice < 16 then (Printf.sprintf "toarr %d" h, OToArr r, None)
       else if choice < 20 then (Printf.sprintf "toobj %d" h, OToObj r, None)
@@ -134,7 +145,7 @@ let gen_history (seed : int) (nops : int) (ndocs : int) (profile : int) : string
         match rand 5 with
         | 4 when d <> s ->
             (* d = std::move(s): d receives s's content, s is left empty (two model steps; handles of both are stale) *)
-            custom := Some (fun w -> let (w1, _) = step w (ODocCopy (nat_of_int d, nat_of_int s)) in step w1 (ODocClear (nat_of_int s)));
+            custom := Some (fun w -> doc_move w (nat_of_int d) (nat_of_int s));
             (Printf.sprintf "dmove %d %d" d s, ODocSwap (nat_of_int d, nat_of_int s), None)
         | 0 -> (Printf.sprintf "dclear %d" d, ODocClear (nat_of_int d), None)
         | 1 -> if d = s then (Printf.sprintf "dshrink %d" d, ODocShrink (nat_of_int d), None)
@@ -223,11 +234,15 @@ let run_script (ndocs : int) (script : string) : string =
       | ["dshrink"; d] -> (ODocShrink (nat d), None)
       | ["deser"; h; t] -> (ODeser (hid h, bytes_of_hex t), None)
       | ["dmove"; d; s2] -> (ODocSwap (nat d, nat s2), None)
+      | ["addarr"; h; nh] | ["addobj"; h; nh] -> (OAddNew (hid h), Some (int_of_string nh))
+      | ["nestarr"; h; k; nh] | ["nestobj"; h; k; nh] -> (OMakeMember (hid h, bytes_of_hex k), Some (int_of_string nh))
       | ["chainget"; h; _; nh] -> (OGetElem (hid h, O), Some (int_of_string nh))
       | ["chainset"; h; _; x] -> (OSet (hid h, scalar_of_dump x), None)
       | _ -> failwith ("bad step: " ^ st) in
     let (w', res) = (match toks with
-      | ["dmove"; d; s2] -> let (w1, _) = step !w (ODocCopy (nat d, nat s2)) in step w1 (ODocClear (nat s2))
+      | ["dmove"; d; s2] -> doc_move !w (nat d) (nat s2)
+      | [("addarr" | "addobj") as t; h; _] -> add_typed !w (hid h) (t = "addarr")
+      | [("nestarr" | "nestobj") as t; h; k; _] -> nest_typed !w (hid h) (bytes_of_hex k) (t = "nestarr")
       | ["chainget"; h; p; _] -> chain_get !w (hid h) (path_of_string p)
       | ["chainset"; h; p; x] -> chain_set !w (hid h) (path_of_string p) (scalar_of_dump x)
       | _ -> step !w o) in
